@@ -61,7 +61,7 @@ def mask_value(mask: int, value: int) -> int:
 
 
 def unpack_int(format: str, buffer: bytes) -> int:
-    assert format in {">B", ">I", ">L"}
+    assert format in {">B", ">H", ">I", ">L"}
     [result] = cast(Tuple[int], unpack(format, buffer))
     return result
 
@@ -139,7 +139,7 @@ class JBIG2StreamReader:
             ret_bytes_count = int(math.ceil((ref_count + 1) / 8))
             for ret_byte_index in range(ret_bytes_count):
                 ret_byte = unpack_int(">B", self.stream.read(1))
-                for bit_pos in range(7):
+                for bit_pos in range(8):
                     retain_segments.append(bit_set(bit_pos, ret_byte))
 
         seg_num = segment["number"]
@@ -147,7 +147,7 @@ class JBIG2StreamReader:
         if seg_num <= 256:
             ref_format = ">B"
         elif seg_num <= 65536:
-            ref_format = ">I"
+            ref_format = ">H"
         else:
             ref_format = ">L"
 
@@ -292,7 +292,7 @@ class JBIG2StreamWriter:
         else:
             flags |= (
                 HEADER_FLAG_PAGE_ASSOC_LONG
-                if cast(int, segment.get("page", 0)) > 255
+                if cast(int, segment.get("page_assoc", 0)) > 255
                 else flags
             )
 
@@ -320,7 +320,9 @@ class JBIG2StreamWriter:
         else:
             bytes_count = math.ceil((ref_count + 1) / 8)
             flags_format = ">L" + ("B" * bytes_count)
-            flags_dword = mask_value(REF_COUNT_SHORT_MASK, REF_COUNT_LONG) << 24
+            flags_dword = (
+                mask_value(REF_COUNT_SHORT_MASK, REF_COUNT_LONG) << 24
+            ) | ref_count
             flags.append(flags_dword)
 
             for byte_index in range(bytes_count):
@@ -337,7 +339,7 @@ class JBIG2StreamWriter:
         if seg_num <= 256:
             ref_format = "B"
         elif seg_num <= 65536:
-            ref_format = "I"
+            ref_format = "H"
         else:
             ref_format = "L"
 
@@ -347,9 +349,16 @@ class JBIG2StreamWriter:
 
         return pack(flags_format, *flags)
 
+    def encode_page_assoc(self, value: int, segment: JBIG2Segment) -> bytes:
+        flags = cast(JBIG2SegmentFlags, segment["flags"])
+        if flags.get("page_assoc_long", value > 255):
+            return pack(">L", value)
+        return pack(">B", value)
+
     def encode_data_length(self, value: int, segment: JBIG2Segment) -> bytes:
         data = pack(">L", value)
-        data += cast(bytes, segment["raw_data"])
+        # a segment without data (e.g. end of page) has no raw_data
+        data += cast(bytes, segment.get("raw_data", b""))
         return data
 
     def get_eop_segment(self, seg_number: int, page_number: int) -> JBIG2Segment:
